@@ -523,7 +523,23 @@ class CallMixin:
                 continue
             R.append((q, ExcV(r.exc, value=val, site=f"L{line}/call {short}")))
         # normal outcome
-        q = p
+        alts = getattr(c, "result_alternatives", None)
+        if c.result_tag == "any" and alts and len(alts) > 1:
+            # a result of one of several kinds (e.g. str | dict): one outcome per kind, each constrained by the ensures
+            import copy
+
+            for t in alts[1:]:
+                q2 = p.fork()
+                c2 = copy.copy(c)
+                c2.result_tag, c2.result_alternatives = t, None
+                outs += self._normal_outcome(c2, q2, h0, a, x0, Tn, short, line)
+            c = copy.copy(c)
+            c.result_tag, c.result_alternatives = alts[0], None
+        outs += self._normal_outcome(c, p, h0, a, x0, Tn, short, line)
+        return outs
+
+    def _normal_outcome(self, c, q, h0, a, x0, Tn, short, line):
+        outs = []
         h1 = h0.havoc(c.modifies_) if c.modifies_ else h0
         q.heap = h1
         res = self.fresh_result(c, q, short)
@@ -606,6 +622,8 @@ class CallMixin:
             if t == "data" and v.tag in ("val", "str", "int", "bool"):
                 return True
             if t == "cb" and v.tag in ("val", "func"):
+                return True
+            if t.startswith("cls:") and v.tag == "cls":
                 return True
         return False
 
